@@ -40,6 +40,27 @@ def run(rd, emit, log, enum_values, ti_default):
         'f_au_guard_nc_timer': bool(re.search(r'if \(notification->IsPaused\(\)\)\s*\{.*?if \(myEndpoint && GetEnableHA\(\)\)\s*\{.*?continue;', nc, re.S)),
         'f_au_guard_send': bool(re.search(r'if \(ApiListener::UpdatedObjectAuthority\(\)\)\s*\{\s*try\s*\{\s*if \(!notification->IsPaused\(\)\)', ckn)),
     }
+    # ConfigObject::SetAuthority: is `paused' tested after the ObjectLock has been taken?
+    #   Some true  - a GetPaused() test follows `ObjectLock olock(this);' (tested under the lock; an additional unlocked
+    #                fast path in front of it is fine: C10_once_concurrent holds for auc_fast = true as well)
+    #   Some false - `paused' is only looked at before the lock is taken (C10_once_needs_locked_recheck applies)
+    #   None       - shape not recognised: compared only (real-thread run)
+    m = re.search(r'void ConfigObject::SetAuthority\(bool authority\)\s*\{(.*?)\n\}', cobj, re.S)
+    locked = None
+    if m:
+        b = m.group(1)
+        parts = re.split(r'ObjectLock\s+\w+\s*\(\s*this\s*\)\s*;', b)
+        if len(parts) == 2 and re.search(r'\bResume\(\)', parts[1]) and re.search(r'\bPause\(\)', parts[1]) \
+                and not re.search(r'\b(Resume|Pause)\(\)', parts[0]):
+            before = bool(re.search(r'GetPaused\(\)|IsPaused\(\)|m_Paused', parts[0]))
+            after = len(re.findall(r'if\s*\([^)]*(?:GetPaused\(\)|IsPaused\(\))', parts[1]))
+            if after >= 2:
+                locked = True
+            elif after == 0 and before:
+                locked = False
+    if locked is None:
+        log.append('C10: SetAuthority lock/test order not recognised (compared only)')
+    body += 'Definition f_au_paused_test_under_lock : option bool := %s.\n' % ('None' if locked is None else ('Some true' if locked else 'Some false'))
     for k, v in facts.items():
         if not v:
             log.append('C10: %s not recognised (compared only)' % k)
